@@ -27,7 +27,7 @@ var c04Profiles = []c04Profile{
 	{"fill90", nil, 90},
 	{"A+fill50", []int{0}, 50},
 	{"A+C+fill30", []int{0, 2}, 30},
-	{"D+D", []int{3, 4}, 0},    // targets alone exceed both limits: relief really moves something
+	{"D+D", []int{3, 4}, 0}, // targets alone exceed both limits: relief really moves something
 	{"A+C+D", []int{0, 2, 3}, 0},
 }
 
